@@ -327,7 +327,8 @@ def _sn_post(a, ret, st):
     if ret is None:
         return stones + [("nothing_only_if_no_plate_allowed", none_iff),
                          ("no_candidate_row_then", z3.Implies(bool_(a.policy is None), z3.Not(z3.Exists([r], z3.And(inr(r), cand_row(a, r))))))]
-    best = _loc(st, "best_plate_id")
+    w_ = st.ctx.ghost.get("argmin_witness")
+    best = w_["ret"] if w_ else _loc(st, "best_plate_id")  # the id returned by plate_id_with_minimum_score (independent of the local's name)
     sel = ret.fields["selection_vector"]
     return stones + [
         ("something_only_if_some_plate_allowed", z3.Not(none_iff)),
